@@ -1,9 +1,99 @@
--- line-protocol handler of property C15 (stub: nothing modelled yet)
-import Winter.Drv.Util
+-- line-protocol handler of property C15 (FRI completeness and the folding identity)
+--   drp   <fld> <N> <logn> <alpha> <coeffs>                      apply_drp on the evaluations of a polynomial
+--   pos   <n> <N> <parts> <positions>                            fold_positions + map_positions_to_indexes
+--   nl    <blowup> <N> <remdeg> <domain>                         num_fri_layers
+--   prove <fld> <hasher> <N> <remdeg> <logb> <logn> <alphas> <coeffs> <positions>
+--                                                                honest prover with scripted α's, then the verifier
+-- fields: f64 f62 f128 (raw words) and q64 (quadratic extension of f64); elements are canonical integers
+-- (`a:b` for q64), lists are comma separated, rows are separated by ';', layers by '|'.
+import Winter.Drv.FriUtil
 
 namespace Drv.C15
+open Model Model.Fri Drv.Fri
 
-def handle (_toks : List String) : String := "-"
+def optsOf (logb N r : Nat) : Option Opts := Opts.new? (2 ^ logb) N r
+
+def drp {α : Type} (fld : Fld α) (N logn : Nat) (alpha : String) (coeffs : String) : String :=
+  match fld.parse alpha, parseList fld.parse coeffs with
+  | some a, some cs =>
+    let F := fld.ops
+    let evals := evalOnDomain F cs (2 ^ logn)
+    match transpose N evals with
+    | none => "panic"
+    | some rows =>
+      match applyDrp F N rows a with
+      | .ok out => printList fld.print out
+      | _ => "panic"
+  | _, _ => "bad-op"
+
+/-- the honest prover followed by the verifier on its proof -/
+def prove {α : Type} (fld : Fld α) (N r logb logn : Nat) (alphas coeffs positions : String) : String :=
+  match optsOf logb N r, parseList fld.parse alphas, parseList fld.parse coeffs,
+      parseList (fun s => s.toNat?) positions with
+  | some o, some als, some cs, some ps =>
+    let F := fld.ops
+    let n := 2 ^ logn
+    let evals := evalOnDomain F cs n
+    match Prover.buildLayers F o Prover.init als evals with
+    | .ok st =>
+      match Prover.buildProof o st ps with
+      | .ok (st', layers, rem) =>
+        let qevals := ps.filterMap fun p => evals[p]?
+        let inp : VInput α (List α) := {
+          maxPolyDegree := n / o.blowup - 1
+          numPartitions := 1
+          commitments := (layers.map fun _ => []) ++ [rem]
+          alphas := als
+          layers := layers.map fun rows => ⟨true, rows⟩
+          remainder := rem
+          positions := ps
+          evaluations := qevals }
+        let _ : BEq (List α) := ⟨beqList F⟩
+        let v := verify F false id o inp
+        let reuse := st'.layers.isEmpty && st'.remainder.isEmpty
+        let body := "|".intercalate (layers.map (printRows fld.print))
+        s!"rem={printList fld.print rem} layers={if layers.isEmpty then "-" else body} v={verdictStr v} reuse={boolStr reuse}"
+      | _ => "panic"
+    | _ => "panic"
+  | _, _, _, _ => "bad-op"
+
+def withFld (name : String) (k : {α : Type} → Fld α → String) : String :=
+  match name with
+  | "f64" => k (baseFld F64.impl)
+  | "f62" => k (baseFld F62.impl)
+  | "f128" => k (baseFld F128.impl)
+  | "q64" => k quadFld
+  | _ => "bad-op"
+
+def handle : List String → String
+  | ["drp", f, n, logn, alpha, coeffs] =>
+    match n.toNat?, logn.toNat? with
+    | some n, some logn => withFld f fun fld => drp fld n logn alpha coeffs
+    | _, _ => "bad-op"
+  | ["pos", n, fold, parts, positions] =>
+    match n.toNat?, fold.toNat?, parts.toNat?, parseList (fun s => s.toNat?) positions with
+    | some n, some fold, some parts, some ps =>
+      match foldPositions ps n fold with
+      | none => "panic"
+      | some folded =>
+        match mapPositionsToIndexes folded n fold parts with
+        | none => "panic"
+        | some idx => s!"{printList toString folded} {printList toString idx}"
+    | _, _, _, _ => "bad-op"
+  | ["nl", b, fold, r, d] =>
+    match b.toNat?, fold.toNat?, r.toNat?, d.toNat? with
+    | some b, some fold, some r, some d =>
+      if h : fold = 2 ∨ fold = 4 ∨ fold = 8 ∨ fold = 16 then
+        toString (numFriLayers ⟨b, fold, r, h⟩ d)
+      else "panic"
+    | _, _, _, _ => "bad-op"
+  | ["prove", f, _hasher, n, r, logb, logn, alphas, coeffs, positions] =>
+    match n.toNat?, r.toNat?, logb.toNat?, logn.toNat? with
+    | some n, some r, some logb, some logn =>
+      withFld f fun fld => prove fld n r logb logn alphas coeffs positions
+    | _, _, _, _ => "bad-op"
+  | "e2e" :: _ => "-"
+  | _ => "bad-op"
 
 end Drv.C15
 
